@@ -64,7 +64,9 @@ pub fn read_lens(dir: &Path) -> io::Result<DirLens> {
 }
 
 pub fn image_lens(img: &DirImage) -> DirLens {
-    img.iter().map(|(k, v)| (k.clone(), v.len() as u64)).collect()
+    img.iter()
+        .map(|(k, v)| (k.clone(), v.len() as u64))
+        .collect()
 }
 
 pub fn clear_dir(dir: &Path) -> io::Result<()> {
@@ -134,7 +136,12 @@ pub struct Plan {
 
 impl Plan {
     /// `snaps[k]` = directory lengths after the k-th unsynced append (`snaps[0]` = at the sync).
-    pub fn build(base: DirImage, fin: DirImage, snaps: &[DirLens], m0: usize) -> Result<Plan, String> {
+    pub fn build(
+        base: DirImage,
+        fin: DirImage,
+        snaps: &[DirLens],
+        m0: usize,
+    ) -> Result<Plan, String> {
         let u = snaps.len().checked_sub(1).ok_or("no snapshots")?;
         let bidx = base.get(INDEX).ok_or("base has no INDEX")?;
         let fidx = fin.get(INDEX).ok_or("final has no INDEX")?;
@@ -144,7 +151,10 @@ impl Plan {
             return Err(format!("synced INDEX has {i0} bytes for {m0} items"));
         }
         if i_fin != ENTRY * ((m0 + u) as u64 + 1) {
-            return Err(format!("final INDEX has {i_fin} bytes for {} items", m0 + u));
+            return Err(format!(
+                "final INDEX has {i_fin} bytes for {} items",
+                m0 + u
+            ));
         }
         if image_lens(&base) != snaps[0] || image_lens(&fin) != snaps[u] {
             return Err("snapshots do not match images".into());
@@ -153,13 +163,20 @@ impl Plan {
         for (name, b) in &base {
             match fin.get(name) {
                 Some(f) if f.len() >= b.len() && &f[..b.len()] == b.as_slice() => {}
-                _ => return Err(format!("file {name} was not only appended to after the sync")),
+                _ => {
+                    return Err(format!(
+                        "file {name} was not only appended to after the sync"
+                    ));
+                }
             }
         }
         let bentries = decode_index(bidx);
         let fentries = decode_index(fidx);
         let (h0, d0) = *bentries.last().unwrap();
-        let base_head_len = base.get(&data_name(h0)).map(|v| v.len() as u64).unwrap_or(0);
+        let base_head_len = base
+            .get(&data_name(h0))
+            .map(|v| v.len() as u64)
+            .unwrap_or(0);
         if base_head_len != d0 {
             return Err(format!(
                 "synced state inconsistent: index says head blk{h0:06} has {d0} bytes, file has {base_head_len}"
@@ -167,7 +184,9 @@ impl Plan {
         }
         let (hi, _) = highest_data_file(&snaps[0]);
         if hi != h0 {
-            return Err(format!("stale data file blk{hi:06} above synced head blk{h0:06}"));
+            return Err(format!(
+                "stale data file blk{hi:06} above synced head blk{h0:06}"
+            ));
         }
         // derive item extents from the observed lengths
         let mut head = h0;
@@ -177,7 +196,9 @@ impl Plan {
             let prev = &snaps[k - 1];
             let cur = &snaps[k];
             if cur.get(INDEX).copied() != Some(i0 + ENTRY * k as u64) {
-                return Err(format!("INDEX did not grow by one entry at unsynced append {k}"));
+                return Err(format!(
+                    "INDEX did not grow by one entry at unsynced append {k}"
+                ));
             }
             let new_files: Vec<u32> = cur
                 .keys()
@@ -189,7 +210,9 @@ impl Plan {
             }
             if let Some(nf) = new_files.first() {
                 if *nf != head + 1 {
-                    return Err(format!("append {k} created blk{nf:06}, head was blk{head:06}"));
+                    return Err(format!(
+                        "append {k} created blk{nf:06}, head was blk{head:06}"
+                    ));
                 }
                 head = *nf;
                 touched.push((head, 0, 0));
@@ -221,15 +244,33 @@ impl Plan {
                     e
                 ));
             }
-            extents.push(Extent { file: head, start, end });
+            extents.push(Extent {
+                file: head,
+                start,
+                end,
+            });
         }
         for (id, _, f) in &touched {
-            let l = fin.get(&data_name(*id)).map(|v| v.len() as u64).unwrap_or(0);
+            let l = fin
+                .get(&data_name(*id))
+                .map(|v| v.len() as u64)
+                .unwrap_or(0);
             if l != *f {
                 return Err(format!("final length of blk{id:06} is {l}, tracked {f}"));
             }
         }
-        Ok(Plan { base, fin, m0, u, i0, i_fin, h0, d0, touched, extents })
+        Ok(Plan {
+            base,
+            fin,
+            m0,
+            u,
+            i0,
+            i_fin,
+            h0,
+            d0,
+            touched,
+            extents,
+        })
     }
 
     pub fn rollovers(&self) -> usize {
@@ -291,12 +332,20 @@ impl Plan {
     }
 
     fn entry_pos(&self, k: usize) -> (u32, u64) {
-        if k == 0 { (self.h0, self.d0) } else { (self.extents[k - 1].file, self.extents[k - 1].end) }
+        if k == 0 {
+            (self.h0, self.d0)
+        } else {
+            (self.extents[k - 1].file, self.extents[k - 1].end)
+        }
     }
 
     fn size_in_state(&self, file: u32, dc: DataCut) -> u64 {
         if file < dc.file {
-            self.touched.iter().find(|t| t.0 == file).map(|t| t.2).unwrap_or(u64::MAX)
+            self.touched
+                .iter()
+                .find(|t| t.0 == file)
+                .map(|t| t.2)
+                .unwrap_or(u64::MAX)
         } else if file == dc.file {
             dc.len
         } else {
